@@ -1636,10 +1636,10 @@ impl Family for MultisigFamily {
     }
     fn props(&self) -> Vec<PropSpec> {
         vec![
-            PropSpec { id: "C03", quick_cases: 2400, thorough_cases: 12_000, floor: 100, rule: "case = multisig flavour (fixed / flex over a static cw4-group), 1-7 voters with weights from {0,1,small,large}, a valid threshold of any kind (percentages incl. a hair above j/total), height- or time-based voting period, up to 30 (thorough 70) ops: propose (with latest absent/shorter/longer/past/other kind), vote (4 options) by members, zero-weight members and outsiders, execute, close, advance, jump to an expiry boundary; after every op every proposal's status (Proposal, ListProposals, ReverseProposals) is compared with the outcome computed from its paged ballots, reported total and expiry by the exact model, and Execute/Close admission with the model status. Non-trivial: some proposal observed in >= 2 statuses and (an abstain/veto ballot or yes within 1 of the needed weight).", assumptions: ASSUME },
-            PropSpec { id: "C05", quick_cases: 2000, thorough_cases: 10_000, floor: 60, rule: "case as C03 plus proposal messages (Recorder{tag,idx} that fails while a fault switch is on, bank sends, re-entrant Execute/Vote/Close to the multisig itself), executor settings, fault toggles and funding; oracle: recorder log and bank balances show each executed proposal's messages exactly once, in order, only in a successful Execute whose pre-call status was Passed and whose caller is authorised; lifecycle only forward; ids sequential; content/threshold/expiry immutable and within the maximum voting period; deliverable Passed proposals execute. Non-trivial: (a failed-then-retried Execute or an Execute attempt on a Passed re-entrant proposal) and >= 2 proposals alive at once.", assumptions: ASSUME },
-            PropSpec { id: "C06", quick_cases: 2400, thorough_cases: 12_000, floor: 100, rule: "fixed: voter lists with repeated addresses and zero weights; flex: group updates (add, re-weight, remove, re-add) interleaved with propose/vote across explicit block boundaries incl. changes in the proposal's own block; oracle: per-block membership model: ballot weight == snapshot weight, only snapshot members with weight >= 1 vote, once, before expiry, total == snapshot sum, ballots never outweigh it, group changes never alter existing proposals. Non-trivial: fixed: irregular voter list with >= 1 proposal; flex: a propose in a block with an earlier group change or a vote by an address whose weight changed after the snapshot.", assumptions: ASSUME },
-            PropSpec { id: "C15", quick_cases: 1600, thorough_cases: 8_000, floor: 60, rule: "cw3-flex with native or cw20 deposit, refund_failed_proposals on/off: propose with exact/short/excess/no/wrong-denom/extra-coin payment (cw20: allowance exact/short/excess/none), votes, execute, close over concurrent proposals; oracle: real balances of all actors and the multisig before/after every call against a deposit ledger; at the end the chain is advanced past every expiry and Close/Execute are attempted on everything, after which every failed proposal's deposit must be back when refunds are enabled. Non-trivial: >= 2 deposits held at once and >= 1 refund by Execute or Close.", assumptions: ASSUME },
+            PropSpec { id: "C03", quick_cases: 8000, thorough_cases: 12_000, floor: 333, rule: "case = multisig flavour (fixed / flex over a static cw4-group), 1-7 voters with weights from {0,1,small,large}, a valid threshold of any kind (percentages incl. a hair above j/total), height- or time-based voting period, up to 30 (thorough 70) ops: propose (with latest absent/shorter/longer/past/other kind), vote (4 options) by members, zero-weight members and outsiders, execute, close, advance, jump to an expiry boundary; after every op every proposal's status (Proposal, ListProposals, ReverseProposals) is compared with the outcome computed from its paged ballots, reported total and expiry by the exact model, and Execute/Close admission with the model status. Non-trivial: some proposal observed in >= 2 statuses and (an abstain/veto ballot or yes within 1 of the needed weight).", assumptions: ASSUME },
+            PropSpec { id: "C05", quick_cases: 7000, thorough_cases: 10_000, floor: 210, rule: "case as C03 plus proposal messages (Recorder{tag,idx} that fails while a fault switch is on, bank sends, re-entrant Execute/Vote/Close to the multisig itself), executor settings, fault toggles and funding; oracle: recorder log and bank balances show each executed proposal's messages exactly once, in order, only in a successful Execute whose pre-call status was Passed and whose caller is authorised; lifecycle only forward; ids sequential; content/threshold/expiry immutable and within the maximum voting period; deliverable Passed proposals execute. Non-trivial: (a failed-then-retried Execute or an Execute attempt on a Passed re-entrant proposal) and >= 2 proposals alive at once.", assumptions: ASSUME },
+            PropSpec { id: "C06", quick_cases: 8000, thorough_cases: 12_000, floor: 333, rule: "fixed: voter lists with repeated addresses and zero weights; flex: group updates (add, re-weight, remove, re-add) interleaved with propose/vote across explicit block boundaries incl. changes in the proposal's own block; oracle: per-block membership model: ballot weight == snapshot weight, only snapshot members with weight >= 1 vote, once, before expiry, total == snapshot sum, ballots never outweigh it, group changes never alter existing proposals. Non-trivial: fixed: irregular voter list with >= 1 proposal; flex: a propose in a block with an earlier group change or a vote by an address whose weight changed after the snapshot.", assumptions: ASSUME },
+            PropSpec { id: "C15", quick_cases: 5000, thorough_cases: 8_000, floor: 187, rule: "cw3-flex with native or cw20 deposit, refund_failed_proposals on/off: propose with exact/short/excess/no/wrong-denom/extra-coin payment (cw20: allowance exact/short/excess/none), votes, execute, close over concurrent proposals; oracle: real balances of all actors and the multisig before/after every call against a deposit ledger; at the end the chain is advanced past every expiry and Close/Execute are attempted on everything, after which every failed proposal's deposit must be back when refunds are enabled. Non-trivial: >= 2 deposits held at once and >= 1 refund by Execute or Close.", assumptions: ASSUME },
         ]
     }
     fn strategy(&self, prop: &str, tier: Tier) -> BoxedStrategy<MCase> {
